@@ -75,30 +75,57 @@ class _CaseTimeout(BaseException):
     """raised by the per-case alarm; a BaseException so that `except Exception` inside the implementation cannot swallow it"""
 
 
+_TIMEOUTS_SEEN = [0]
+
+
 def _case_timeout():
+    """Wall-clock limit per case: VERIF_CASE_TIMEOUT seconds (default 300) until a first case has run into it; afterwards 10 s.
+    The shortening can only happen after a genuine timeout (which is already a finding), so it cannot raise an alarm on a tree that
+    returns; it keeps a run against a change that makes MANY cases hang from taking hours (seen: 170 hanging cases x 300 s)."""
     try:
-        return float(os.environ.get("VERIF_CASE_TIMEOUT", "300"))
+        base = float(os.environ.get("VERIF_CASE_TIMEOUT", "300"))
     except ValueError:
-        return 300.0
+        base = 300.0
+    if _TIMEOUTS_SEEN[0] and base > 10:
+        return 10.0
+    return base
+
+
+def _case_cpu_timeout():
+    """User-CPU limit per case (machine load cannot trigger it): VERIF_CASE_CPU_TIMEOUT seconds, default 120; 10 s after a first timeout."""
+    try:
+        base = float(os.environ.get("VERIF_CASE_CPU_TIMEOUT", "120"))
+    except ValueError:
+        base = 120.0
+    if _TIMEOUTS_SEEN[0] and base > 10:
+        return 10.0
+    return base
 
 
 class _case_deadline:
-    """Per-case wall-clock limit for callbacks that drive the implementation (main thread only; a no-op elsewhere)."""
+    """Per-case limits for callbacks that drive the implementation (main thread only; a no-op elsewhere): wall clock (SIGALRM) and
+    user CPU time (SIGVTALRM)."""
     def __enter__(self):
         import signal, threading
         self.on = threading.current_thread() is threading.main_thread() and hasattr(signal, "setitimer") and _case_timeout() > 0
         if self.on:
             def _h(signum, frame):
+                _TIMEOUTS_SEEN[0] += 1
                 raise _CaseTimeout()
             self.old = signal.signal(signal.SIGALRM, _h)
+            self.oldv = signal.signal(signal.SIGVTALRM, _h)
             signal.setitimer(signal.ITIMER_REAL, _case_timeout())
+            if _case_cpu_timeout() > 0:
+                signal.setitimer(signal.ITIMER_VIRTUAL, _case_cpu_timeout())
         return self
 
     def __exit__(self, *a):
         if self.on:
             import signal
             signal.setitimer(signal.ITIMER_REAL, 0)
+            signal.setitimer(signal.ITIMER_VIRTUAL, 0)
             signal.signal(signal.SIGALRM, self.old)
+            signal.signal(signal.SIGVTALRM, self.oldv)
         return False
 
 
@@ -112,7 +139,7 @@ def safe_probe(pid, what, fn, case):
         # the implementation did not return: no clause of any statement can hold on this input ("for every input ... returns/gives ...").
         # The limit is generous (VERIF_CASE_TIMEOUT seconds, default 300; cases take milliseconds to a few seconds on the unchanged tree)
         return None, None, {"key": f"{pid}/{what}/implementation-does-not-return",
-                            "what": f"the implementation did not return within {_case_timeout():.0f} s on this case (it returns at once on the unchanged tree)",
+                            "what": "the implementation did not return within the per-case limit (wall clock VERIF_CASE_TIMEOUT / user CPU VERIF_CASE_CPU_TIMEOUT) on this case; it returns at once on the unchanged tree",
                             "detail": ""}
     except Exception as e:  # noqa
         txt = f"{type(e).__name__}: {e}\n{traceback.format_exc()[-1500:]}"
